@@ -42,25 +42,39 @@ def link_signature(ln: Link) -> Tuple[str, str, str]:
 
 
 def all_links(w: Wiring):
-    """[(entry, kind, direction, role, link)] for every scenario."""
+    """[(entry, kind, direction, role, link)] for every scenario (port kind x direction x role x facilities origin);
+    links that are the same text for both origins are listed once."""
     out, problems = [], []
-    for kind in PORT_KINDS:
-        for d in ('IN', 'OUT'):
-            ls, pr = w.links('create_constructor', kind, d)
-            out += [('create_constructor', kind, d, 'other', l) for l in ls]
-            problems += pr
-    for role in ('claim', 'release-void', 'release-valued', 'other'):
+    seen = {}
+
+    def add(entry, kind, d, role, ls, origin):
+        for l in ls:
+            key = (entry, kind, d, role, toks_text(l.tokens))
+            if key not in seen:
+                seen[key] = l
+                l.origins = {origin}
+                out.append((entry, kind, d, role, l))
+            else:
+                seen[key].origins.add(origin)
+
+    for origin in ('CREATE', 'IMPORT'):
         for kind in PORT_KINDS:
-            rv = {'release-void': True, 'release-valued': False}.get(role)
-            ls, pr = w.links('create_cpp_port_helpers', kind, 'IN', role.split('-')[0], reply_void=rv)
-            out += [('create_cpp_port_helpers', kind, 'IN', role, l) for l in ls]
-            problems += pr
+            for d in ('IN', 'OUT'):
+                ls, pr = w.links('create_constructor', kind, d, origin=origin)
+                add('create_constructor', kind, d, 'other', ls, origin)
+                problems += pr
+        for role in ('claim', 'release-void', 'release-valued', 'other'):
+            for kind in PORT_KINDS:
+                rv = {'release-void': True, 'release-valued': False}.get(role)
+                ls, pr = w.links('create_cpp_port_helpers', kind, 'IN', role.split('-')[0], origin=origin, reply_void=rv)
+                add('create_cpp_port_helpers', kind, 'IN', role, ls, origin)
+                problems += pr
         # client ports get no out-event links (the component's out events are routed by the selector)
-    for kind in PORT_KINDS:
-        ls, pr = w.links('create_cpp_port_helpers', kind, 'OUT', 'other')
-        out += [('create_cpp_port_helpers', kind, 'OUT', 'other', l) for l in ls]
-        problems += pr
-    return out, problems
+        for kind in PORT_KINDS:
+            ls, pr = w.links('create_cpp_port_helpers', kind, 'OUT', 'other', origin=origin)
+            add('create_cpp_port_helpers', kind, 'OUT', 'other', ls, origin)
+            problems += pr
+    return out, sorted(set(problems))
 
 
 def check(ctx):
@@ -100,19 +114,38 @@ def check(ctx):
     by_cell: Dict[Tuple[str, str, str, str], List[Link]] = {}
     for entry, kind, d, role, ln in links:
         by_cell.setdefault((entry, kind, d, role), []).append(ln)
+    def per_origin(cell):
+        """{signature list: origins} - the links of a cell for each facilities origin."""
+        res = {}
+        cases = [None]
+        if any(getattr(l, 'variant', None) for l in by_cell.get(cell, [])):
+            cases = ['events with parameters', 'events without parameters']
+        for origin in ('CREATE', 'IMPORT'):
+            for case in cases:
+                got = tuple(sorted(link_signature(l) for l in by_cell.get(cell, [])
+                                   if origin in getattr(l, 'origins', {origin}) and getattr(l, 'variant', None) in (None, case)))
+                res.setdefault(got, [])
+                if origin not in res[got]:
+                    res[got].append(origin)
+        return res
+
     for (kind, d), want in SPEC.items():
-        got = sorted(link_signature(l) for l in by_cell.get(('create_constructor', kind, d, 'other'), []))
-        ok = got == sorted(want)
-        run.add('C01.cover', mod, 'create_constructor', f'{kind} {d}-events: {got}', ok,
-                f'{kind} {d.lower()}-events: links {got or "none"} as specified' if ok else
-                f'{kind} {d.lower()}-events: emitted links {got or "none"} but the wiring table prescribes '
-                f'{sorted(want) or "none"} - an event is left unrouted, routed twice or routed to the wrong object')
+        for got, origins in per_origin(('create_constructor', kind, d, 'other')).items():
+            got = list(got)
+            ok = got == sorted(want)
+            tag = '' if len(origins) == 2 else f' (facilities origin {origins[0]})'
+            run.add('C01.cover', mod, 'create_constructor', f'{kind} {d}-events{tag}: {got}', ok,
+                    f'{kind} {d.lower()}-events: links {got or "none"} as specified' if ok else
+                    f'{kind} {d.lower()}-events{tag}: emitted links {got or "none"} but the wiring table prescribes '
+                    f'{sorted(want) or "none"} - an event is left unrouted, routed twice or routed to the wrong object')
     for role, want in CLIENT_SPEC.items():
-        got = sorted(link_signature(l) for l in by_cell.get(('create_cpp_port_helpers', 'P-MTS-multiclient', 'IN', role), []))
-        ok = got == sorted(want)
-        run.add('C01.cover', mod, 'initialize_port_impl', f'client port {role} in-event: {got}', ok,
-                f'client port, {role} in-event: {got} as specified' if ok else
-                f'client port, {role} in-event: emitted {got or "none"}, specified {sorted(want)}')
+        for got, origins in per_origin(('create_cpp_port_helpers', 'P-MTS-multiclient', 'IN', role)).items():
+            got = list(got)
+            ok = got == sorted(want)
+            tag = '' if len(origins) == 2 else f' (facilities origin {origins[0]})'
+            run.add('C01.cover', mod, 'initialize_port_impl', f'client port {role} in-event{tag}: {got}', ok,
+                    f'client port, {role} in-event: {got} as specified' if ok else
+                    f'client port, {role} in-event{tag}: emitted {got or "none"}, specified {sorted(want)}')
     for kind in PORT_KINDS:
         if kind == 'P-MTS-multiclient':
             continue
